@@ -184,6 +184,22 @@ def updateSel (coords : List (V3 α)) (sel : List Nat) (f : V3 α → V3 α) : L
 def gather (coords : List (V3 α)) (sel : List Nat) : List (V3 α) :=
   sel.filterMap (fun i => coords[i]?)
 
+/-! ### substructure handles: rows are resolved at access time -/
+
+/-- `Substructure.parent_atom_indices`: the rows which the handle's atoms (identities) occupy in the
+parent's atom list NOW — looked up again at every `coords` access, so a handle created before the
+parent was edited still addresses its own atoms. -/
+def viewRows (atoms handle : List Nat) : List Nat := handle.filterMap (fun a => atoms.idxOf? a)
+
+/-- a row-wise edit through a substructure handle, against the parent's current atom list -/
+def viewEdit (atoms : List Nat) (coords : List (V3 α)) (handle : List Nat) (f : V3 α → V3 α) :
+    List (V3 α) := updateSel coords (viewRows atoms handle) f
+
+/-- NOT the code: a handle that froze its rows when it was created (against `atomsThen`) and
+applies them to the parent's table as it is now — the subject of the counterexample. -/
+def viewEditCached (atomsThen : List Nat) (coordsNow : List (V3 α)) (handle : List Nat)
+    (f : V3 α → V3 α) : List (V3 α) := updateSel coordsNow (viewRows atomsThen handle) f
+
 def translate (coords : List (V3 α)) (v : V3 α) : List (V3 α) := coords.map (·.add v)
 def transform (coords : List (V3 α)) (r : M3 α) : List (V3 α) := coords.map (·.mulM r)
 
